@@ -4,7 +4,7 @@ open Ixd
 def fmtDesc (d : Desc) : String :=
   s!"{d.dig}:{d.mt}:{d.size}:{if d.ann.isNil then 1 else 0}:{d.ann.tag}:{d.ann.subj}:{d.ann.other}"
 def fmtState (ix : Index) : String :=
-  "M[" ++ " ".intercalate (ix.manifests.map fmtDesc) ++ "]"
+  "M[" ++ " ".intercalate (ix.manifests.map fmtDesc) ++ "] C[" ++ " ".intercalate (ix.children.map fmtDesc) ++ "]"
 def fmtOpt : Option Desc → String
   | none => "none"
   | some d => fmtDesc d
@@ -41,7 +41,9 @@ def step (ix : Index) (line : String) : Index × String :=
   | ["GT", t] => (ix, fmtOpt (getDescTag ix (nat! t)))
   | ["GD", g] => (ix, fmtOpt (getDescDig ix (nat! g)))
   | ["GS", s] => (ix, fmtOpt (getBySubj ix (nat! s)))
-  | ["NEW"] => ({}, "M[]")
+  | ["CP"] => (ix, "ok")          -- copy independence is a fact about Go aliasing; model values are immutable
+  | ["CPX", _] => (ix, "ok")
+  | ["NEW"] => ({}, "M[] C[]")
   | _ => (ix, "bad-op")
 
 partial def loop (h : IO.FS.Stream) (out : IO.FS.Stream) (ix : Index) (stack : List Index) : IO Unit := do
